@@ -34,6 +34,7 @@ type Ctx struct {
 	globalFacts map[string]bool
 	boxDecl     map[string]bool
 	unfolded    map[string]bool
+	opaque      map[string]bool // spec functions treated as uninterpreted in this context
 }
 
 type specInst struct {
@@ -229,7 +230,17 @@ func opaqueStruct(t types.Type) bool {
 	return false
 }
 
+// isStringsBuilder: strings.Builder values are modelled by their accumulated contents (a String).
+func isStringsBuilder(t types.Type) bool {
+	n, ok := types.Unalias(t).(*types.Named)
+	return ok && n.Obj().Pkg() != nil && n.Obj().Pkg().Path() == "strings" && n.Obj().Name() == "Builder"
+}
+
 func (c *Ctx) structSort(t types.Type, u *types.Struct) string {
+	if isStringsBuilder(t) {
+		c.uses["str"] = true
+		return "String"
+	}
 	if opaqueStruct(t) {
 		return "Int"
 	}
@@ -277,6 +288,9 @@ func (c *Ctx) zero(t types.Type) string {
 	case *types.Array:
 		return fmt.Sprintf("((as const %s) %s)", c.sortOf(t), c.zero(u.Elem()))
 	case *types.Struct:
+		if isStringsBuilder(t) {
+			return `""`
+		}
 		if opaqueStruct(t) {
 			return "0"
 		}
@@ -323,13 +337,13 @@ func (c *Ctx) rangeFact(term string, t types.Type) string {
 			return fmt.Sprintf("(and (<= %s %s) (<= %s %s))", smtInt(lo), term, term, smtInt(hi))
 		}
 		if u.Info()&types.IsString != 0 {
-			return fmt.Sprintf("(<= (str.len %s) 4611686018427387904)", term)
+			return fmt.Sprintf("(<= (str.len %s) 140737488355328)", term)
 		}
 		return ""
 	case *types.Pointer, *types.Map, *types.Chan, *types.Signature:
 		return fmt.Sprintf("(>= %s 0)", term)
 	case *types.Slice:
-		return fmt.Sprintf("(and (>= (s-ref %[1]s) 0) (>= (s-off %[1]s) 0) (>= (s-len %[1]s) 0) (<= (s-len %[1]s) (s-cap %[1]s)) (<= (s-cap %[1]s) 4611686018427387904) (=> (= (s-ref %[1]s) 0) (= (s-cap %[1]s) 0)))", term)
+		return fmt.Sprintf("(and (>= (s-ref %[1]s) 0) (>= (s-off %[1]s) 0) (>= (s-len %[1]s) 0) (<= (s-len %[1]s) (s-cap %[1]s)) (<= (s-cap %[1]s) 140737488355328) (=> (= (s-ref %[1]s) 0) (= (s-cap %[1]s) 0)))", term)
 	case *types.Interface:
 		return fmt.Sprintf("(and (>= (if-tag %[1]s) 0) (=> (= (if-tag %[1]s) 0) (= (if-val %[1]s) 0)))", term)
 	case *types.Struct:
@@ -381,6 +395,19 @@ func (c *Ctx) typeID(t types.Type) int {
 
 // preamble renders sorts and declarations.
 func (c *Ctx) preamble() string { return c.preambleOpt(true) }
+
+// preambleQF: declarations plus the quantifier-free axioms only.
+func (c *Ctx) preambleQF() string {
+	s := c.preambleOpt(false)
+	var sb strings.Builder
+	sb.WriteString(s)
+	for _, a := range c.axioms {
+		if !hasQuant(a) {
+			sb.WriteString("(assert " + a + ")\n")
+		}
+	}
+	return sb.String()
+}
 
 // preambleOpt renders the declarations; it must not mutate c (obligations are rendered concurrently).
 func (c *Ctx) preambleOpt(withAxioms bool) string {
